@@ -3,7 +3,8 @@
 (* and many entries; means that are not integers (0,1,4 / 2,3,8); sizes      *)
 (* beyond 32 bits (2^33) and large sizes with a small spread                 *)
 (* (3000000001/3/5: variance 8/3), made cheap by sparse files; several       *)
-(* extensions, owners, modes, directories and name lengths for GROUP BY.     *)
+(* extensions, owners, modes, directories and name lengths for GROUP BY;     *)
+(* sizes, line counts and name lengths that cross a digit-count boundary.    *)
 EXTENDS WorldC02
 
 F7(i, p, nm, cont, big, md, u) ==
@@ -23,6 +24,10 @@ W7 == [nodes |-> <<
   [id |-> 11, parent |-> 0, kind |-> "dir", namec |-> <<"s","u","b">>, name |-> "sub", content |-> <<>>, bigsize |-> "",
    mode |-> 493, uid |-> 0, gid |-> 0, mtime |-> T0, mtime_ms |-> 0, linkto |-> 0, target |-> -3, tstyle |-> "rel"],
   F7(12, 11, <<"a","3",".","t","x","t">>, Runs(2, 2), "",           420, 0),
-  F7(13, 11, <<"b","3",".","l","o","g">>, Runs(8, 0), "",           384, 1000)
+  F7(13, 11, <<"b","3",".","l","o","g">>, Runs(8, 0), "",           384, 1000),
+  \* values whose decimal texts order differently from the numbers (9 < 99 < 105 but "105" < "9" < "99"), a name of 16 characters
+  F7(14, 0, <<"e","1",".","t","x","t">>, Runs(9, 3),   "", 420, 0),
+  F7(15, 0, <<"e","2",".","l","o","g">>, Runs(105, 9), "", 420, 1000),
+  F7(16, 11, <<"e","3","-","l","o","n","g","-","n","a","m","e",".","t","x","t">>, Runs(99, 11), "", 420, 0)
 >>]
 =============================================================================
